@@ -7,7 +7,7 @@ output, operands owned by the *other* project).  Reference model: a set of direc
 edges per project, updated from the request's denotation (from x to pairs; a pair with
 ~ on either side is a disconnect).  Oracle after every op.
 """
-from .. import builder, env, seeds  # noqa: F401
+from .. import builder, env, seeds, noise  # noqa: F401
 from ..runner import Acc
 from ..simio import HarnessTimeout
 
@@ -124,6 +124,9 @@ def execute(case):
     changed_any = False
     for i, op in enumerate(case["ops"]):
         k = op["k"]
+        if k == "bgload":
+            noise.run(op)
+            continue
         if k == "setup":
             for pi, n in enumerate((op.get("na", 3), op.get("nb", 2))):
                 for j in range(n):
@@ -315,6 +318,7 @@ def generate_hub(r):
             ops.append({"k": "ctl", "p": 0, "m": hub if r.random() < 0.7 else r.randrange(100), "v": r.getrandbits(40)})
         else:
             ops.append({"k": "link", "form": "lshift", "from": [r.choice(dests)], "to": [hub], "p": 0})
+    noise.sprinkle(r, ops)
     return {"property": PROPERTY, "world": "links", "ops": ops}
 
 
@@ -338,6 +342,7 @@ def generate(seed, i, tier="quick"):
         op = builder.gen_link_op(r, foreign_p=fp)
         op["p"] = 0 if r.random() < 0.8 else 1
         ops.append(op)
+    noise.sprinkle(r, ops)
     return {"property": PROPERTY, "world": "links", "ops": ops}
 
 
